@@ -62,6 +62,19 @@ def build_driver(pid):
     """Extract Dispatch/D<pid>.v and compile the OCaml driver.  Returns path."""
     d = os.path.join(BUILD, pid)
     os.makedirs(d, exist_ok=True)
+    if os.environ.get("VERIF_MUT_FAST") and os.path.exists(os.path.join(d, "driver")):
+        return os.path.join(d, "driver")       # scratch mutation runs (many in parallel) reuse the built driver
+    import fcntl
+    lock = open(os.path.join(d, ".lock"), "w")
+    fcntl.flock(lock, fcntl.LOCK_EX)           # two checks of one property must not extract into the same files at once
+    try:
+        return _build_driver_locked(pid, d)
+    finally:
+        fcntl.flock(lock, fcntl.LOCK_UN)
+        lock.close()
+
+
+def _build_driver_locked(pid, d):
     xv = os.path.join(COQ, "Extract", f"X{pid}.v")
     rc, out, _ = run(["coqc", "-Q", COQ, "V", xv], cwd=d, timeout=600)
     if rc != 0 and "inconsistent assumptions" in out:
